@@ -249,6 +249,18 @@ def check_schedule(T, sub, case, api, be, Loader, data, ref, sched):
     T.outcome(got[1][0] if got[1] else 'ok')
 
 
+def check_constant(T, sub, case, api, be, Loader, data, ref, c):
+    from ..streams import ChunkStream
+    T.evaluations += 1
+    T.nontrivial += 1
+    cc = dict(case)
+    cc['constant_chunk'] = c
+    if T.trace: T.begin(cc)
+    got = observe(api, ChunkStream(data, (c,)), Loader)
+    if not same_outcome(got, ref):
+        T.violation(sub, 'depends-on-chunking', cc, detail='%s/%s with every read() answered by %d unit(s) gives %s; in memory it gives %s' % (be, api, c, _short(got), _short(ref)))
+
+
 def compositions(n):
     """all ways to cut n units into consecutive non-empty pieces"""
     for bits in itertools.product((0, 1), repeat=n - 1):
@@ -300,6 +312,11 @@ def check_text(T, sub, name, text, dev, slice_=None, forms=FORMS, apis=APIS):
                 if len(data) <= 10 and len(data) >= 2:
                     for sizes in compositions(len(data)):
                         check_schedule(T, sub, case, api, be, Loader, data, got, sizes)
+                # every read answered with a constant number of units (1, 2, 3, 5, 7): many deviations, but a single parameter
+                if 2 <= len(data) <= 400:
+                    for c_ in (1, 2, 3, 5, 7):
+                        if c_ < len(data):
+                            check_constant(T, sub, case, api, be, Loader, data, got, c_)
                 sl = slice_ if form not in ('str', 'utf-8') else None
                 run_schedules(T, sub, case, api, be, Loader, data, got, dev, BLOCK[be], sl)
 
@@ -377,7 +394,9 @@ def replay(sub, case, T):
             text = dict(documents() + padded(4096) + padded(16384))[case['doc']]
         data = encode(text, case['form'])
     ref = observe(case['api'], data, Loader)
-    if 'schedule' in case:
+    if 'constant_chunk' in case:
+        check_constant(T, sub, {k: v for k, v in case.items() if k != 'constant_chunk'}, case['api'], be, Loader, data, ref, case['constant_chunk'])
+    elif 'schedule' in case:
         check_schedule(T, sub, {k: v for k, v in case.items() if k != 'schedule'}, case['api'], be, Loader, data, ref, case['schedule'])
     elif 'text' in case or 'doc' in case:
         text = case.get('text') or dict(documents() + padded(4096) + padded(16384))[case['doc']]
